@@ -291,8 +291,11 @@ ProgC12(kd, pr, named, mut) ==
                  ELSE <<Item(IdOf(b, k, 1), "and_then", "block", rd), Item(IdOf(b, k, 2), "or_else", "closure", <<>>)>>
       Nm(b) == IF b \in named THEN (IF mut THEN "letmut" ELSE "let") ELSE "none"
   IN  Build(kd, "res", pr, S, Nm, ExprInit, "none")
+\* `fwd`: the macro is reached through a `macro_rules!` forwarder (`($($t:tt)*) => { join! { $($t)* } }`), as a user who presets
+\* options would write it: names and the captures that read them keep the caller's hygiene context (generator flag only)
 FamC12(dummy) ==
-  UNION {{Run(P, pl, {}) : pl \in {<<>>} \cup (IF P.kind.try THEN {} ELSE {<<F(IdOf(0, 0, 1))>>, <<F(IdOf(1, 0, 1))>>})} :
+  UNION {{Run(Q, pl, {}) : pl \in {<<>>} \cup (IF P.kind.try THEN {} ELSE {<<F(IdOf(0, 0, 1))>>, <<F(IdOf(1, 0, 1))>>}),
+                           Q \in {P, P @@ [fwd |-> TRUE]}} :
          P \in {ProgC12(kd, pr, named, mut) : kd \in Kinds8, mut \in BOOLEAN,
                   pr \in IF Tier = "quick" THEN {<<3>>, <<2, 2>>, <<1, 3>>, <<2, 1, 3>>, <<3, 3, 1>>} ELSE {q \in Profiles(3, 3) : \E i \in 1 .. Len(q) : q[i] > 1},
                   named \in (SUBSET {0, 1, 2})}}
@@ -302,13 +305,20 @@ ProgC13(kd, n, h, pos, form) ==
   LET S(b, k) == <<Item(IdOf(b, k, 1), "and_then", "closure", <<>>)>>
       P == Build(kd, "res", [i \in 1 .. n |-> IF i = 2 THEN 2 ELSE 1], S, NoName, ExprInit, h)
   IN  [P EXCEPT !.hpos = pos, !.hform = form]
+ProgC13nc(kd, n, h, pos) ==
+  LET S(b, k) == <<Item(IdOf(b, k, 1), "and_then", "block", <<>>)>>
+      P == Build(kd, "res", [i \in 1 .. n |-> IF i = 2 THEN 2 ELSE 1], S, NoName, ExprInit, h)
+  IN  [P EXCEPT !.hpos = pos] @@ [hnocomma |-> TRUE]
 FamC13(dummy) ==
   UNION {{Run(P, pl, G) :
             pl \in {<<>>, <<[t |-> "hc", id |-> 0, a |-> "fail"]>>} \cup {<<F(x)>> : x \in ItemIds(P, {"and_then"})},
             G \in IF P.kind.async /\ P.handler \in {"then", "and_then"} THEN {{}, {90}} ELSE {{}}} :
          P \in {q \in {ProgC13(kd, n, h, pos, form) : kd \in Kinds8, n \in 1 .. (IF Tier = "quick" THEN 3 ELSE 4),
                                h \in {"map", "and_then", "then"}, pos \in 0 .. 4, form \in {"closure", "call"}} :
-                   /\ (q.kind.try => q.handler # "then") /\ (~q.kind.try => q.handler = "then") /\ q.hpos <= NB(q)}}
+                   /\ (q.kind.try => q.handler # "then") /\ (~q.kind.try => q.handler = "then") /\ q.hpos <= NB(q)}
+               \* a branch that ends in a block may be followed by the handler without a comma (`hnocomma`: read by the generator only)
+               \cup {q \in {ProgC13nc(kd, n, h, pos) : kd \in Kinds8, n \in 1 .. 3, h \in {"map", "and_then", "then"}, pos \in 1 .. 3} :
+                       /\ (q.kind.try => q.handler # "then") /\ (~q.kind.try => q.handler = "then") /\ q.hpos <= NB(q)}}
 
 \* ---- C16: options: custom joiner (eager / lazy), lazy_branches, crate path, on programs whose
 \* active-branch count changes between steps
@@ -336,8 +346,15 @@ FamC16j(dummy) ==
          P \in {Build(Kind(FALSE, t, TRUE), "res", pr, StepC16j, NoName, ExprInit, IF h = "dflt" THEN DefaultHandler(Kind(FALSE, t, TRUE)) ELSE "none") :
                   t \in BOOLEAN, h \in {"none", "dflt"},
                   pr \in {<<1, 1>>, <<2, 2>>, <<2, 2, 1>>, <<1, 2, 2>>}}}
+\* a generic function as (lazy) joiner: each joined step must infer the function's type parameters for itself
+\* (`jfn`: generator flag; every multi-branch step of these programs has the same number of active branches)
+FamC16f(dummy) ==
+  UNION {{Run([P EXCEPT !.opts = [joiner |-> "lazy", lazy |-> "true", transpose |-> "default", path |-> "default"]] @@ [jfn |-> TRUE], pl, {}) :
+            pl \in {<<>>} \cup {<<F(x)>> : x \in ItemIds(P, {"and_then"})}} :
+         P \in {Build(Kind(FALSE, t, FALSE), "res", pr, StepC16, NoName, ExprInit, h) : t \in BOOLEAN, h \in {"none"},
+                  pr \in {<<1, 1>>, <<2, 2>>, <<3, 3>>, <<2, 2, 2>>}}}
 FamC16(dummy) ==
-  FamC16j(0) \cup
+  FamC16j(0) \cup FamC16f(0) \cup
   UNION {{Run([P EXCEPT !.opts = o], pl, {}) : pl \in {<<>>} \cup {<<F(x)>> : x \in ItemIds(P, {"and_then"})},
                                                 o \in {q \in OptsC16(P.kind) : OkOpts(P.kind, q)}} :
          P \in {Build(kd, "res", pr, StepC16, NoName, ExprInit, "none") : kd \in Kinds8,
@@ -354,6 +371,9 @@ PanicPlans(P) ==
   \cup {<<Pn("c", x)>> : x \in {IdOf(b, k, 1) : b \in BrSet(P), k \in 1 .. 3} \cap AllItemIds(P)}
   \cup {<<Pn("hx", 0)>>, <<Pn("hc", 0)>>}
   \cup (IF P.kind.async THEN {<<Pn("hf", 0)>>} ELSE {})
+  \* sync try macros: one branch fails, another one panics (the failure must not hide the panic of a branch that did run;
+  \* the async try macros return at the first failure they see and abandon the other branches, so nothing is pinned there)
+  \cup (IF P.kind.try /\ ~P.kind.async THEN {pl \in {<<F(x), Pn("f", y)>> : x \in ItemIds(P, {"and_then"}), y \in ItemIds(P, {"and_then"})} : pl[1].id # pl[2].id} ELSE {})
 JoinerOpts == [joiner |-> "eager", lazy |-> "default", transpose |-> "default", path |-> "default"]
 FamC18(dummy) ==
   UNION {{Run(P, pl, IF P.kind.spawn /\ ~P.kind.async THEN {IdOf(b, 0, 1) : b \in BrSet(P)} ELSE {}) : pl \in PanicPlans(P)} :
